@@ -158,10 +158,12 @@ class _Gen:
             base = rng.choice(GRID + (0.0, 2.5, 3.0, 4.0))
             node["timeout"] = base + (HALF if rng.random() < 0.5 and base
                                       else 0.0)
+            if node["timeout"] == int(node["timeout"]) and rng.random() < 0.5:
+                node["timeout"] = int(node["timeout"])      # int, not float
         if feat['windows'] and rng.random() < 0.6:
             node["window"] = rng.choice((1, 1, 2, 2, 3, 0))
         # shutdown timeout
-        sdt = rng.choice((1.0, 1.0, 0.5, 0.25, 0.0, 2.0))
+        sdt = rng.choice((1.0, 1, 0.5, 0.25, 0.0, 0, 2.0))
         if feat['sd_none'] and rng.random() < 0.4:
             sdt = None
         node["sd_timeout"] = sdt
